@@ -159,15 +159,16 @@ fn case<const IV: u64>(out: &mut dyn Write, disk: bool, seed: u64, rng: &mut Rng
         let obs = sys.exec(op);
         writeln!(out, "{op} => {obs}").unwrap();
     };
+    // first of all (so that it is the first thing a changed store fails on in this case)
+    if let Some((n, rounds)) = race {
+        emit(out, &mut sys, &format!("raceadd {n} {rounds} r"));
+    }
     // sequential set-up
     emit(out, &mut sys, "add 0 a init n0");
     emit(out, &mut sys, "add 0 b init n1");
     emit(out, &mut sys, "wadd 0 w -");
     if rng.chance(1, 2) {
         emit(out, &mut sys, "cmd 0 a setup add 2");
-    }
-    if let Some((n, rounds)) = race {
-        emit(out, &mut sys, &format!("raceadd {n} {rounds} r"));
     }
     let rounds = rng.below(4) as usize;
     let programs: Vec<Vec<Call>> =
